@@ -217,6 +217,14 @@ inductive Inner where
 /-- is the op name "B" or "BL" (func_arm64.go:128) -/
 def isCall (op : Nat) : Bool := opName op == "B" || opName op == "BL"
 
+/-- func_arm64.go:128-139: `if inst.Op.String() == "B" || … == "BL" { rAddr, ok := inst.Args[0].(PCRel); if ok { … } }` -/
+def callHit (start : BitVec 64) (curLen : Nat) (r : Res) : Option (BitVec 64) :=
+  if isCall r.op then
+    match r.args.head? with
+    | some (.pcrel d) => innerTarget start curLen d
+    | _ => none
+  else none
+
 /-- func_arm64.go:110 `GetInnerFunc`, `mem c` = the word at `start + c` -/
 def getInnerFunc (env : Env) (mem : Nat → BitVec 32) (start : BitVec 64) : Nat → Nat → Bool → Inner
   | 0, _, _ => .fuel
@@ -227,20 +235,12 @@ def getInnerFunc (env : Env) (mem : Nat → BitVec 32) (start : BitVec 64) : Nat
       let z := isInt0 r (mem curLen)
       if !z && int0Found then .zero                                         -- :125
       else
-        let int0Found := int0Found || z
-        let hit : Option (BitVec 64) :=
-          if isCall r.op then
-            match r.args.head? with
-            | some (.pcrel d) => innerTarget start curLen d                 -- :129-137
-            | _ => none
-          else none
-        match hit with
-        | some a => .target a
+        match callHit start curLen r with
+        | some a => .target a                                               -- :133 / :136
         | none =>
-          let curLen := curLen + 4                                          -- :141
-          if prologueAt mem curLen then .zero                               -- :144
-          else if curLen > 4096 then .zero                                  -- :147
-          else getInnerFunc env mem start fuel curLen int0Found
+          if prologueAt mem (curLen + 4) then .zero                         -- :141-145
+          else if curLen + 4 > 4096 then .zero                              -- :147
+          else getInnerFunc env mem start fuel (curLen + 4) (int0Found || z)
 
 /-- func_arm64.go:27 `GetFuncSize` (cache and lock omitted); `none` = out of fuel (the Go loop has no bound) -/
 def getFuncSize (env : Env) (mem : Nat → BitVec 32) (minimal : Bool) : Nat → Nat → Bool → Option Nat
